@@ -33,7 +33,7 @@ REQUIRED = [
     # T-route tie: regenerated definition = hand model
     "abs_is_sabs", "gen_abs", "gen_sign", "gen_lerp", "gen_ulerp", "gen_lerpfactor", "gen_clamp", "gen_cmp", "gen_cmpt", "gen_iszero",
     "gen_equal", "gen_equalWithAbsError", "gen_equalWithRelError", "gen_sinx_over_x", "sqrt3_literal", "gen_solveLinear", "gen_solveQuadratic",
-    "gen_solveNormalizedCubic", "gen_solveCubic",
+    "gen_solveNormalizedCubic", "gen_solveCubic", "gen_lerpfactor_inverts_lerp", "gen_solveQuadratic_two_roots", "gen_solveNormalizedCubic_one_root",
     "divs_mods_truncating", "divp_modp_euclidean", "divs_mods_int32", "divp_modp_int32",
     "divp_former_defect_fixed",
     "abs_is_abs", "sign_is_sign", "cmp_is_three_way", "cmpt_is_tolerant_cmp", "iszero_iff", "equal_iff",
